@@ -109,7 +109,7 @@ def inject(rng, g, texts):
     victim = rng.choice(sorted(texts))
     t = texts[victim]
     kind = rng.choice(['respell', 'respell', 'respell', 'drop-decl', 'dup-decl', 'drop-import', 'missing-module', 'garbage', 'truncate', 'respell-import',
-                       'defval-brackets', 'defval-swap'])
+                       'defval-brackets', 'defval-swap', 'smi-spelling'])
     segs = t.split('"')
 
     def words():
@@ -158,6 +158,16 @@ def inject(rng, g, texts):
         out[victim] = mibgen.print_module(dict(m, imports=imports), __import__('random').Random(0))
     elif kind == 'missing-module':
         del out[victim]
+    elif kind == 'smi-spelling':
+        # a type of the module renamed, at every occurrence, to a sloppy upper-case spelling of an SMI type: still one
+        # consistent module, but the symbol table reads those names as the SMI types
+        ws = sorted(set(w for si, a, b, w in words() if w[0].isupper() and w not in mibgen.SMI_IMPORTABLE and not w.isupper()))
+        if not ws:
+            return 'none', victim, out
+        w = rng.choice(ws)
+        new = rng.choice(['OPAQUE', 'COUNTER32', 'GAUGE32', 'TIMETICKS', 'IPADDRESS', 'UNSIGNED32'])
+        out[victim] = '"'.join(re.sub(r'(?<![A-Za-z0-9-])%s(?![A-Za-z0-9-])' % re.escape(w), new, seg) if i % 2 == 0 else seg
+                               for i, seg in enumerate(segs))
     elif kind in ('defval-brackets', 'defval-swap'):
         # a default that does not fit the object: wrapped in a second pair of braces, or taken from another object
         spots = [(si, mo) for si in range(0, len(segs), 2) for mo in re.finditer(r"DEFVAL \{ ([^{}]*) \}", segs[si])]
